@@ -111,6 +111,14 @@ def diffElemList : List (Nat × Tree) := ["insert", "delete", "replace"].map dif
 def opName : Op → String
   | .del => "delete" | .ins => "insert" | .rep => "replace" | .eq => "equal"
 
+/-- `PlaceholderMaker.__init__`: close then open placeholder for insert, delete, replace. -/
+def phInit (textTags fmtTags : List Str) : PhSt :=
+  let st0 : PhSt := { table := [], counter := phStart, heap := [], textTags := textTags, formattingTags := fmtTags }
+  ["insert", "delete", "replace"].foldl (fun st n =>
+    let (c, st1) := getPlaceholder st (diffElemOf n).2 .close none
+    let (_, st2) := getPlaceholder st1 (diffElemOf n).2 .open (some c)
+    st2) st0
+
 /-- open / close placeholder of the wrapper for an action (`self.diff_tags[action]`):
 allocated in `__init__` in the order insert, delete, replace, close before open. -/
 def wrapPhs : Op → Nat × Nat
